@@ -263,6 +263,8 @@ static int recv_events(m_ctx_t *c, int timeout) {
                  */
                 if (p && p->flags & M_SRC_ONESHOT) {
                     if (p->type != M_SRC_TYPE_PS) {
+                        /* Stop polling on it right now: its memory outlives it, as the event references it */
+                        poll_set_new_evt(&c->ppriv, p, RM);
                         m_bst_remove(mod->srcs[p->type], p);
                     } else {
                         m_map_remove(mod->subscriptions, p->ps_src.topic);
